@@ -250,6 +250,10 @@ def translateOffset (ind : Bool) (row : InstrRow) (left : Value) (right : Str) (
       let sz := size + (if e then 2 else 1)
       let pb ← numV (raw0 ||| (if e then base + 0x0D else base + 0x0C))
       return { opCode := op, postByte := pb, additional := l, size := sz, maxSize := sz }
+  else if needs then
+    -- a label (or label expression) as constant offset: its address is known after layout, so the 16-bit form is taken
+    let pb ← numV (raw0 ||| (base + 0x09))
+    return { opCode := op, postByte := pb, additional := l, size := size + 2, maxSize := size + 2, needsRes := true }
   else
     match l with
     | .numeric i _ _ neg =>
@@ -302,6 +306,7 @@ def translateIndexed (o : Operand) (row : InstrRow) : R Pkg := do
     match o.left with
     | .text l =>
       if isABD l then
+        if hasSub ['+'] right || hasSub ['-'] right then throw .operandType     -- A,X+ : "invalid indexed expression"
         let raw := raw ||| 0x80 ||| (if l == ['A'] then 0x06 else if l == ['B'] then 0x05 else 0x0B)
         let pb ← numV raw
         return { opCode := op, postByte := pb, size := row.indSz, maxSize := row.indSz }
@@ -312,7 +317,7 @@ def translateIndexed (o : Operand) (row : InstrRow) : R Pkg := do
 def translateExtIndirect (o : Operand) (row : InstrRow) : R Pkg := do
   if row.ind.isNone || row.ind == some 0 then throw .operandType
   let op ← opVal row.ind
-  if o.value.isAddress || o.value.isNumeric then
+  if o.value.isAddress || o.value.isAddrExpr || o.value.isNumeric then        -- [label], [label+1], [number]
     let pb ← numV 0x9F
     return { opCode := op, postByte := pb, additional := o.value, size := row.indSz + 2, maxSize := row.indSz + 2 }
   let right ← match o.right with | some r => pure r | none => throw .other    -- regex match on None: TypeError
@@ -338,6 +343,7 @@ def translateExtIndirect (o : Operand) (row : InstrRow) : R Pkg := do
     match o.left with
     | .text l =>
       if isABD l then
+        if hasSub ['+'] right || hasSub ['-'] right then throw .operandType     -- [D,--Y] : "invalid indexed expression"
         let raw := raw ||| (if l == ['A'] then 0x16 else if l == ['B'] then 0x15 else 0x1B)
         let pb ← numV raw
         return { opCode := op, postByte := pb, size := row.indSz, maxSize := row.indSz }
